@@ -59,15 +59,17 @@ class NMEA2000Decoder():
         self.source_to_iso_name: dict[int, IsoName] = {}
         self.logged_unsupported_pgns: set[int] = set()
 
+        # ids are compared lower-cased (split_pgn_list lower-cases the configured ones)
+        iso_claim_id = ISO_CLAIM_PGN_ID.lower()
+        include_active = len(self.include_pgns) > 0 or len(self.include_pgns_ids) > 0
         self.iso_claim_filter = (ISO_CLAIM_PGN in self.exclude_pgns) or \
-            ("isoAddressClaim" in self.exclude_pgns_ids) or \
-            (len(self.include_pgns) and ISO_CLAIM_PGN not in self.include_pgns) or \
-            (len(self.include_pgns_ids) and ISO_CLAIM_PGN_ID not in self.include_pgns_ids)
+            (iso_claim_id in self.exclude_pgns_ids) or \
+            (include_active and ISO_CLAIM_PGN not in self.include_pgns and iso_claim_id not in self.include_pgns_ids)
         if self.iso_claim_filter:
             while ISO_CLAIM_PGN in self.exclude_pgns:
                 self.exclude_pgns.remove(ISO_CLAIM_PGN)    
-            while ISO_CLAIM_PGN_ID in self.exclude_pgns_ids:
-                self.exclude_pgns_ids.remove(ISO_CLAIM_PGN_ID)    
+            while iso_claim_id in self.exclude_pgns_ids:
+                self.exclude_pgns_ids.remove(iso_claim_id)    
             logger.info("iso address claim will be removed later")
 
         logger.info("PGN filter exclude: %s, %s", self.exclude_pgns, self.exclude_pgns_ids)
@@ -458,7 +460,8 @@ class NMEA2000Decoder():
         if id in self.exclude_pgns_ids:
             logger.debug("Excluding PGN by id: %s", nmea2000Message.id)
             return None
-        if len(self.include_pgns) > 0 and id not in self.include_pgns and len(self.include_pgns_ids) > 0 and id not in self.include_pgns_ids:
+        include_active = len(self.include_pgns) > 0 or len(self.include_pgns_ids) > 0
+        if include_active and nmea2000Message.PGN not in self.include_pgns and id not in self.include_pgns_ids:
             logger.debug("Excluding (by include) PGN %d by id: %s", pgn, nmea2000Message.id)
             return None
         
